@@ -62,7 +62,8 @@ void vm_init(VmState *vm, const NvmModule *module) {
     { const char *f = getenv("NLVERIF_FUEL"); if (f) vm->verif_fuel = strtoull(f, NULL, 10); }
     { const char *ev = getenv("NLVERIF_AUDIT"); vm->verif_audit_every = ev ? atol(ev) : 0;
       const char *lp = getenv("NLVERIF_AUDIT_LOG");
-      if (vm->verif_audit_every > 0 && lp && lp[0]) vm->verif_audit_log = fopen(lp, "a"); }
+      if (vm->verif_audit_every > 0 && lp && lp[0]) { vm->verif_audit_log = fopen(lp, "a");
+        if (vm->verif_audit_log) setvbuf((FILE *)vm->verif_audit_log, NULL, _IOLBF, 0); /* records must survive a crash */ } }
 #endif
 }
 
